@@ -83,6 +83,32 @@ def build_race_driver():
     return out
 
 
+def build_plain_driver():
+    """The same driver without the race detector (C19's server sessions: many short runs)."""
+    if "plaindriver" in _built:
+        return _built["plaindriver"]
+    build_worker("committed")
+    h = os.path.join(VERIF, "harness")
+    out = os.path.join(BIN, "pvdrive")
+    p = subprocess.run(["go", "build", "-o", out, "./cmd/pvrace"], cwd=h, env=GOENV, capture_output=True, text=True)
+    if p.returncode != 0:
+        raise Broken("go build of the plain driver failed:\n" + p.stdout + p.stderr)
+    _built["plaindriver"] = out
+    return out
+
+
+def run_plain_driver(req, timeout_s=300):
+    binary = build_plain_driver()
+    try:
+        p = subprocess.run([binary], input=json.dumps(req) + "\n", capture_output=True, text=True, timeout=timeout_s)
+    except subprocess.TimeoutExpired:
+        raise Broken("driver timed out")
+    try:
+        return json.loads(p.stdout.strip().splitlines()[-1])
+    except Exception:
+        return {"end": "died:" + (p.stderr or "")[-1500:]}
+
+
 def run_race_driver(req, timeout_s=900):
     """Run pvrace on one request; returns (response dict, list of race reports).  A report is a list of accesses
     [(kind, [frames...])], frames = "func file:line" innermost first."""
